@@ -194,7 +194,19 @@ def gc_module_f():
     return sp
 
 
-SCENARIOS = [('dead-table-global-offset', gc_module_f), ('dead-nested-blocks', gc_module_e), ('all-kinds', gc_module_a), ('late-table', gc_module_b), ('mixed-declared-extern-data', gc_module_c), ('only-export', gc_module_d)]
+def gc_module_g():
+    """a declared segment lists an EXPORTED function next to a function mentioned nowhere else: declared segments are
+    (conservatively) roots, so both stay; nothing takes ref.func, so no declaration is otherwise needed"""
+    sp = Spec()
+    sp.types = [([], [])]
+    sp.funcs = [dict(type=0, ops=tagged_body('run', 0)), dict(type=0, ops=tagged_body('f_exported', 1)), dict(type=0, ops=tagged_body('f_only_declared', 2)), dict(type=0, ops=tagged_body('f_dead', 3))]
+    sp.func_tags = ['run', 'f_exported', 'f_only_declared', 'f_dead']
+    sp.exports = [dict(name=S('run'), kind='Func', index=u32(0)), dict(name=S('f'), kind='Func', index=u32(1))]
+    sp.elements = [dict(mode='declared', items=('funcs', [u32(1), u32(2)])), dict(mode='declared', items=('exprs', 'funcref', [OP('RefFunc', function_index=u32(2)), OP('RefFunc', function_index=u32(1))]))]
+    return sp
+
+
+SCENARIOS = [('declared-mixed-exported', gc_module_g), ('dead-table-global-offset', gc_module_f), ('dead-nested-blocks', gc_module_e), ('all-kinds', gc_module_a), ('late-table', gc_module_b), ('mixed-declared-extern-data', gc_module_c), ('only-export', gc_module_d)]
 
 
 def keep_sets(spec):
